@@ -398,6 +398,8 @@ def c02(ctx, rep):
     rep.trust(*TRUST_IP)
     rep.assume("C01's obligations (F is a bijection at every node) — re-checked here for the forward walk as the sibling reference")
     _stage_families(ctx, m, rep, "C02")
+    from .checks_misc import argument_mutation_rule as _amr
+    _amr(ctx, rep, "C02", [f for f in [c.find_method("__init__") for c in [m.base] + m.p.subclasses(m.base)] if f is not None])  # "the same options": the caller's lists are what they were when the undo run is set up
     m.check_subclasses(rep, "C02")  # both directions run the base's functions for both families (method resolution order)
     fwd = m.check_walk(rep, "C02.fwd")
     inv = m.check_walk(rep, "C02", inverse=True)
@@ -768,6 +770,10 @@ def option_spec_rule(ctx, rep, cl, only=None):
         typ_ok = typ is None or (name == "--preserve-host-bits" and typ[0] == "node" and typ[1] == "host_bits") or typ == ("node", "str")
         rep.ob(cl + ".option-value-as-typed", name, typ_ok, "%s has type=%s; only --preserve-host-bits may convert its value (through host_bits): a type function runs at parse time, before validation, and changes what reaches the anonymizers" % (name, typ[1] if typ else None), o["where"],
                key="%s.option-value-as-typed|%s" % (cl, name))
+        act = o.get("action")
+        act_ok = act in (None, ("ok", "store"), ("ok", "store_true"), ("ok", "version"), ("ok", "help")) or (isinstance(act, tuple) and act[0] == "absent")
+        rep.ob(cl + ".option-action", name, act_ok, "%s is declared with action=%s; an option holds the one value given last (command line over config file): accumulating, counting or custom actions merge values from both sources" % (name, act), o["where"],
+               key="%s.option-action|%s" % (cl, name))
         extra = [k for k in o.get("kwargs", []) if k not in _KNOWN_ADD_ARGUMENT_KW]
         rep.ob(cl + ".option-source", name, not extra, "%s is declared with %s; keywords that change where the value comes from or how many words it takes (env_var, nargs, const, ...) are not part of the reviewed interface" % (name, extra), o["where"],
                key="%s.option-source|%s" % (cl, name))
@@ -1171,6 +1177,8 @@ def c05(ctx, rep):
     stage_state_rule(ctx, rep, "C05", IP_STAGE_ROOTS)
     from .checks_pipe import import_clauses, c12 as _c12
     import_clauses(ctx, rep, "C05", "C01", c01, ("C01.inv.memo-",))  # undo finds the pinned (identity) entries only through the inverse memo, at every length
+    from .checks_pipe import line_loop_rules as _llr5
+    _llr5(ctx, rep, "C05")  # a mask or a preserved address is recognised as a whole token only if the stages see whole lines
     import_clauses(ctx, rep, "C05", "C12", _c12, ("C12.group-loop", "C12.line-reassembled"))  # the secret stage rewrites nothing but the secret's own position (a mask elsewhere on the line stays as written)
 
 
@@ -1335,6 +1343,10 @@ def c17(ctx, rep):
                 rep.ob("C17.dump-target", "anonymize_files", bool(opens) and fobj == opens[0].a, "dump written to %s" % show(fobj), where(f_files, e.node), nontrivial=False)
         elif want_dump is False:
             rep.ob("C17.no-dump", "anonymize_files", not dump_calls, "no dump without a dump path", where(f_files), nontrivial=False)
+        elif loop_idx and path.feasible():
+            # the files were processed and the function returns without ever asking whether a dump was requested
+            rep.fail("C17.dump-decided-on-every-path", "anonymize_files", "a path that processes the files returns without testing `dumpfile is not None` (%s): replaced addresses without their line in the map" % path.describe()[:140],
+                     where(f_files, path.result[2] if path.result else f_files.node), key="C17.dump-decided-on-every-path|anonymize_files")
     rep.ob("C17.dump-paths", "anonymize_files", n >= 1, "paths with a dump file examined: %d" % n, where(f_files), nontrivial=False)
     # main allows a dump only with --anonymize-ips
     _dump_requires_ips(ctx, rep, "C17")
